@@ -367,6 +367,11 @@ class Ref:
             if k == "IntervalRange":
                 ok = (type(v) is tuple and len(v) == 2 and r[1] <= v[1] - v[0] <= r[2] and v[1] <= r[3] and v[0] >= 0)
                 return None if ok else k
+            if k == "Dependent3":
+                a, _b = r[1].split(",")
+                va = siblings.get(a)
+                ok = type(v) is int and type(va) is int and v in (va, va + 1)
+                return None if ok else "Dependent3-IntList"
             if k == "Dependent2":
                 a, b = r[1].split(",")
                 va, vb = siblings.get(a), siblings.get(b)
